@@ -169,8 +169,8 @@ theorem createInstance_failed_is_identity (s : State) (ns : Name) (i0 : Inst) :
     intro _
     exact createProvider_failed_is_identity s ns cc _
 
-theorem modifyMulti_failed_is_identity (s : State) (nss : List Name) (orig : Name) (rec : InstRec) :
-    AtomicAt (modifyMulti nss orig rec) s := by
+theorem modifyMulti_failed_is_identity (s : State) (nss : List Name) (rec : InstRec) :
+    AtomicAt (modifyMulti nss rec) s := by
   unfold modifyMulti
   apply atomicAt_getS_then
   apply atomicAt_ite; · intro _; exact atomicAt_raise _ _
@@ -179,7 +179,7 @@ theorem modifyMulti_failed_is_identity (s : State) (nss : List Name) (orig : Nam
   intro hB
   have hw : ∀ n ∈ nss, ∃ r, findNs s n = some r ∧
       hasInst r ({ rec with key := { rec.key with ns := lower n },
-                            path := { rec.path with ns := some orig } } : InstRec).key = true := by
+                            path := { rec.path with ns := some n } } : InstRec).key = true := by
     intro n hn
     simp only [List.any_eq_true, not_exists, not_and] at hB
     have h2 := hB n hn
@@ -190,7 +190,7 @@ theorem modifyMulti_failed_is_identity (s : State) (nss : List Name) (orig : Nam
       simp only [Bool.not_eq_true, Bool.not_eq_false'] at h2
       exact ⟨r, rfl, h2⟩
   obtain ⟨s', hs'⟩ := forM_update_ok (fun n => { rec with key := { rec.key with ns := lower n },
-                                                            path := { rec.path with ns := some orig } }) nss s hw
+                                                            path := { rec.path with ns := some n } }) nss s hw
   exact atomicAt_of_ok hs'
 
 theorem readOnly_modifyRefCheck (stored : InstRec) (pv : PropV) : ReadOnly (modifyRefCheck stored pv) := by
@@ -209,7 +209,7 @@ theorem modifyProvider_failed_is_identity (s : State) (ns : Name) (cc : ClassRec
     apply atomicAt_bind (readOnly_forM_ (readOnly_modifyRefCheck stored) _); intro _ _
     apply atomicAt_liftE_then; intro others _
     apply atomicAt_ite
-    · intro _; exact modifyMulti_failed_is_identity s _ _ _
+    · intro _; exact modifyMulti_failed_is_identity s _ _
     · intro _; exact atomicAt_inNs _ _ _
   · intro _; exact atomicAt_inNs _ _ _
 
@@ -237,21 +237,27 @@ theorem deleteMulti_failed_is_identity (s : State) (nss : List Name) (k : PKey) 
   unfold deleteMulti
   apply atomicAt_getS_then
   apply atomicAt_ite; · intro _; exact atomicAt_raise _ _
-  intro _
-  apply atomicAt_ite; · intro _; exact atomicAt_raise _ _
-  intro hB
-  have hw : WritesOk (fun n => instDeleteR { k with ns := lower n }) nss s := by
+  intro hA
+  have hw : WritesOk (fun n => instDeleteIfPresentR { k with ns := lower n }) nss s := by
     intro n hn
-    simp only [List.any_eq_true, not_exists, not_and] at hB
-    have h2 := hB n hn
+    simp only [List.any_eq_true, not_exists, not_and] at hA
+    have h1 := hA n hn
     cases hf : findNs s n with
-    | none => rw [hf] at h2; simp at h2
+    | none => rw [hf] at h1; simp at h1
     | some r =>
-      rw [hf] at h2
-      simp only [Bool.not_eq_true, Bool.not_eq_false'] at h2
-      obtain ⟨r', hr'⟩ := instDeleteR_ok { k with ns := lower n } r h2
-      exact ⟨r, r', rfl, hr'⟩
-  obtain ⟨s', hs'⟩ := forM_inNs_ok _ (keepsName_delete _) nss s hd hw
+      unfold instDeleteIfPresentR
+      by_cases hi : hasInst r { k with ns := lower n } = true
+      · obtain ⟨r', hr'⟩ := instDeleteR_ok { k with ns := lower n } r hi
+        exact ⟨r, r', rfl, by simp only [hi, if_true]; exact hr'⟩
+      · exact ⟨r, r, rfl, by simp only [hi]; rfl⟩
+  have hk : KeepsName (fun n => instDeleteIfPresentR { k with ns := lower n }) := by
+    intro n r r' h
+    unfold instDeleteIfPresentR at h
+    by_cases hi : hasInst r { k with ns := lower n } = true
+    · simp only [hi, if_true] at h
+      exact keepsName_delete (fun n => { k with ns := lower n }) n r r' h
+    · simp only [hi] at h; cases h; rfl
+  obtain ⟨s', hs'⟩ := forM_inNs_ok _ hk nss s hd hw
   exact atomicAt_of_ok hs'
 
 theorem deleteProvider_failed_is_identity (s : State) (ns : Name) (cc : ClassRec) (stored : InstRec) (k : PKey) :
